@@ -177,6 +177,17 @@ fn props_case(ctx: &Ctx, st: &Setup, r: &mut Rng, nsteps: usize) {
 
         // ---- C27 ----
         let depth1 = m.sim.frame_stack.len();
+        // a return that is refused (strict mode: uninitialised target; RTI: privilege, uninitialised stack words) is
+        // not a return executed: the depth and the frame of the still-active call stay
+        if let Outcome::Err(_) = out {
+            let is_return = matches!(fetched, Some(SimInstr::RTI)) || matches!(fetched, Some(SimInstr::JMP(br)) if br.reg_no() == 7);
+            let fetch_seen = accessed.iter().any(|(a, f)| *a == pc && f & 1 != 0);
+            // (virtual traps only: under real traps the error of a refused return is vectored to the OS, an entry
+            // that pushes a frame and may itself stop with a strict error)
+            if !st.real && is_return && fetch_seen && !executed && depth1 != depth0 {
+                ctx.fail("C27", "refused_return_pops", format!("step {k} at pc={pc:#06x} ({fetched:?}) ends with {out:?} (the return was not executed) but the depth went {depth0} -> {depth1}"), replay_of(st, &mut build(st), &envs));
+            }
+        }
         if out == Outcome::Ok {
             let expect = if executed {
                 match fetched {
@@ -283,6 +294,37 @@ fn props_case(ctx: &Ctx, st: &Setup, r: &mut Rng, nsteps: usize) {
 }
 
 /// C09 directed: every addressing mode of a user-mode program aimed at every boundary address
+/// directed cases for C27: calls whose return is refused or misdirected (strict mode with an uninitialised
+/// return address or target word; RTI without privilege or with uninitialised stack words), at depth >= 1
+fn c27_directed(ctx: &Ctx, r: &mut Rng) {
+    for strict in [true, false] {
+        for frames in [true, false] {
+            for variant in 0..6u8 {
+                for real in [false, true] {
+                    let mut st = Setup::plain(r.u16());
+                    st.strict = strict; st.debug_frames = frames; st.real = real;
+                    st.psr = if variant >= 4 { 0x0002 } else { 0x8002 }; st.pc = 0x3000;
+                    for k in 0..8 { st.regs[k] = (r.u16(), 0xFFFF); }
+                    st.regs[6] = (0x4000, 0xFFFF);
+                    let put = |st: &mut Setup, a: u16, w: u16| st.overrides.push((a, (w, 0xFFFF)));
+                    put(&mut st, 0x3000, 0x4802);   // JSR x3003
+                    put(&mut st, 0x3001, 0x1021);   // ADD R0,R0,#1
+                    put(&mut st, 0x3002, 0xF025);   // HALT
+                    match variant {
+                        0 => { put(&mut st, 0x3003, 0x2E02); put(&mut st, 0x3004, 0xC1C0); st.overrides.push((0x3006, (0x3001, 0))); }      // LD R7,cell(uninit); RET
+                        1 => { put(&mut st, 0x3003, 0x2E02); put(&mut st, 0x3004, 0xC1C0); put(&mut st, 0x3006, 0x5000); st.overrides.push((0x5000, (0x1021, 0))); } // RET to an uninitialised word
+                        2 => { put(&mut st, 0x3003, 0x4801); put(&mut st, 0x3004, 0xC1C0); put(&mut st, 0x3005, 0x8000); }                 // nested JSR; RTI in user mode
+                        3 => { put(&mut st, 0x3003, 0xC1C0); }                                                                           // plain RET (control)
+                        4 => { put(&mut st, 0x3003, 0x8000); st.regs[6] = (0x4000, 0); }                                                   // supervisor RTI, uninitialised R6
+                        _ => { put(&mut st, 0x3003, 0x8000); st.overrides.push((0x4000, (0x3001, 0))); st.overrides.push((0x4001, (0x8002, 0xFFFF))); } // RTI popping an uninitialised PC word
+                    }
+                    props_case(ctx, &st, r, 6);
+                }
+            }
+        }
+    }
+}
+
 fn c09_directed(ctx: &Ctx, r: &mut Rng) {
     let targets: [u16; 10] = [0x0000, 0x2FFF, 0x3000, 0x3001, 0xFDFF, 0xFE00, 0xFE02, 0xFE06, 0xFFFE, 0xFFFF];
     for &t in &targets {
@@ -335,6 +377,7 @@ fn c09_directed(ctx: &Ctx, r: &mut Rng) {
 
 pub fn run(ctx: &Ctx, _replay: Option<&str>) {
     { let mut r = Rng::new(ctx.seed ^ 0xC09); c09_directed(ctx, &mut r); }
+    { let mut r = Rng::new(ctx.seed ^ 0xC27); c27_directed(ctx, &mut r); }
     let runs = ctx.n(1500, 60_000) as usize;
     let root = Rng::new(ctx.seed ^ 0x51AB);
     par_for(runs, |k| {
